@@ -14,7 +14,8 @@ ID = "C17"
 LEVEL = "exploration"
 RULE = (
     "G-history pipeline on diploid G-genome data (1-2 samples, SNV / insertion / deletion / MNP variants incl. ones inside "
-    "homopolymers, error-free reads, single and paired): truth VCF phased with PS in 1-4 blocks per contig (bgzip+tabix) -> "
+    "homopolymers, error-free reads, single and paired; a quarter of the runs with linked reads: BX barcodes on islands of "
+    "variants > 50 kb apart, the same barcode recurring on distant molecules of either haplotype; a quarter with --only-indels): truth VCF phased with PS in 1-4 blocks per contig (bgzip+tabix) -> "
     "whatshap haplotag on reads that each lie within one phase set -> tagged BAM; the VCF is then unphased completely or "
     "partially (a random subset of variants keeps its phase; by an own rewrite or by whatshap unphase) -> whatshap "
     "haplotagphase with default thresholds. Oracle (own decoders): every variant phased in the result has exactly the truth's "
@@ -44,11 +45,18 @@ def run_one(rng, counters):
         p = {"n_chrom": rng.choice([1, 2]), "chrom_len": 3000, "n_var": rng.randint(6, 20), "kinds": rng.choice([["snv"], ["snv", "snv", "ins", "del", "mnp"], ["ins", "del"]]),
              "samples": samples, "depth": rng.choice([4, 8, 15]), "read_len": rng.choice([(150, 500), (300, 1200)]), "paired": rng.choice([0.0, 0.5]),
              "end_policy": "clean", "error_rate": 0.0, "het_prob": 0.85}
+        linked = rng.random() < 0.25
+        if linked:
+            # linked reads (BX barcodes): islands of variants/reads further apart than haplotag's linked-read cutoff (50 kb),
+            # barcodes recurring on distant molecules of either haplotype; one phase set per contig, so no read cloud
+            # spans two phase sets
+            p.update({"n_chrom": 1, "islands": (rng.choice([2, 3]), 3000, rng.choice([51000, 70000])), "barcodes": rng.choice([2, 3, 5]),
+                      "n_var": rng.randint(10, 24), "read_len": (150, 500), "depth": rng.choice([4, 8])})
         sim = genome.simulate(rng, tmp, p)
         if not sim.reads:
             return [], False, {"params": p}
         cover = rng.choice(["full", "full", "partial"])
-        truth, blocks = genome.truth_phased_doc(sim, rng, tag="PS", block_len=(3, 10))
+        truth, blocks = genome.truth_phased_doc(sim, rng, tag="PS", block_len=(1000, 1000) if linked else (3, 10))
         tvcf = os.path.join(tmp, "truth.vcf.gz")
         truth.write(tvcf, compress=True)
         # reads confined to one phase set (per sample): drop reads whose span covers het variants of two blocks
@@ -84,7 +92,8 @@ def run_one(rng, counters):
                     n_kept += 1
         src.close()
         pysam.index(fbam)
-        desc = {"params": p, "cover": cover}
+        only_indels = rng.random() < 0.25 and p["kinds"] != ["snv"]
+        desc = {"params": p, "cover": cover, "linked": linked, "only_indels": only_indels}
         if n_kept == 0:
             return [], False, desc
         tagged = os.path.join(tmp, "tagged.bam")
@@ -126,11 +135,15 @@ def run_one(rng, counters):
             itext = inp.text()
         out = os.path.join(tmp, "result.vcf")
         try:
-            run_haplotagphase(variant_file=ivcf, alignment_file=tagged, output=out, reference=sim.fasta, write_command_line_header=False)
+            run_haplotagphase(variant_file=ivcf, alignment_file=tagged, output=out, reference=sim.fasta, write_command_line_header=False, only_indels=only_indels)
         except Exception:
             tb = traceback.format_exc()
             return [{"mech": "crash:" + tb.strip().splitlines()[-1].split(":")[0], "msg": "run_haplotagphase raised: " + tb[-1500:]}], False, desc
         counters["runs_ok"] = counters.get("runs_ok", 0) + 1
+        if linked:
+            counters["linked_read_runs"] = counters.get("linked_read_runs", 0) + 1
+        if only_indels:
+            counters["only_indels_runs"] = counters.get("only_indels_runs", 0) + 1
         _, tsamples, trecs = vcftext.parse(truth.text())
         _, isamples, irecs = vcftext.parse(itext)
         _, osamples, orecs = vcftext.parse(open(out).read())
